@@ -12,9 +12,98 @@ DESIGN_REF = "6/C01"
 from bindcases import *  # noqa: F401,F403
 from bindcases import _UNIS  # noqa: F401
 
+def _objects(v, out):
+    """all `obj` values inside `v`, with the place (container, key) that holds them"""
+    if isinstance(v, dict):
+        if "obj" in v:
+            for kv in v["fields"]:
+                if isinstance(kv[1], dict) and "obj" in kv[1]:
+                    out.append((kv, 1))
+                _objects(kv[1], out)
+        elif "list" in v:
+            for n, y in enumerate(v["list"]):
+                if isinstance(y, dict) and "obj" in y:
+                    out.append((v["list"], n))
+                _objects(y, out)
+    return out
+
+
+def faulty_value(rng, desc, value):
+    """an instance the serializer must refuse or mishandle: an object of an unrelated class under a
+    model-typed field (SerializerError: not derived), `None` in place of an Attributes map
+    (AttributeError), a scalar in place of a token list (TypeError / one element per character)"""
+    import copy
+
+    v = copy.deepcopy(value)
+    kind = rng.choice(["unrelated", "unrelated", "map-none", "token-scalar"])
+    if kind == "unrelated":
+        places = _objects(v, [])
+        if not places:
+            return None, None
+        cont, key = rng.choice(places)
+        other = [c for c in desc["classes"] if c["name"] != cont[key]["obj"] and c["name"] != "Root"]
+        if not other:
+            return None, None
+        c = rng.choice(other)
+        cont[key] = {"obj": c["name"], "fields": [[f["name"], None] for f in _all_fields(desc, c["name"])]}
+        return kind, v
+    by = {c["name"]: c for c in desc["classes"]}
+    targets = []
+
+    def walk(x):
+        if isinstance(x, dict) and "obj" in x:
+            for kv, f in zip(x["fields"], _all_fields(desc, x["obj"])):
+                md = f.get("metadata", {})
+                if kind == "map-none" and md.get("type") == "Attributes":
+                    targets.append(kv)
+                if kind == "token-scalar" and md.get("tokens") and isinstance(kv[1], dict) and "list" in kv[1]:
+                    targets.append(kv)
+                walk(kv[1])
+        elif isinstance(x, dict) and "list" in x:
+            for y in x["list"]:
+                walk(y)
+
+    _ = by
+    walk(v)
+    if not targets:
+        return None, None
+    kv = rng.choice(targets)
+    kv[1] = None if kind == "map-none" else {"int": 7}
+    return kind, v
+
+
+def _all_fields(desc, name):
+    c = next(c for c in desc["classes"] if c["name"] == name)
+    out = []
+    for b in c.get("bases", []):
+        out += _all_fields(desc, b)
+    return out + c["fields"]
+
+
+def gen_generate_c01(rng, tier):
+    """the shared generator plus instances the serializer refuses (every 4th case)"""
+    n = 0
+    for a in gen_generate(rng, tier):
+        yield a
+        n += 1
+        if n % 4 == 0:
+            kind, v = faulty_value(rng, a["desc"], a["value"])
+            if v is not None:
+                yield {**a, "value": v, "_fault": kind}
+
+
+def classify_generate(a, o):
+    k = a.get("_fault", "generated")
+    if isinstance(o, dict) and "ok" in o:
+        n = len(o["ok"]) if isinstance(o["ok"], list) else 0
+        return f"{k}:ok:{'<=10' if n <= 10 else '<=40' if n <= 40 else '>40'} events"
+    return f"{k}:{o.get('err', 'unsupported') if isinstance(o, dict) else '?'}"
+
+
 CORRS = [
-    Corr("bind.generate", gen_generate, impl_generate, compare=cmp_skip_unsupported,
-         describe="EventGenerator.generate vs model on generated class universes and instances"),
+    Corr("bind.generate", gen_generate_c01, impl_generate, compare=cmp_skip_unsupported, classify=classify_generate,
+         describe="EventGenerator.generate vs model on generated class universes and instances, and on instances the "
+                  "serializer refuses (unrelated class, None for an Attributes map, scalar for a token list)"),
     Corr("bind.parse", gen_parse, impl_parse, compare=cmp_parse, classify=classify_parse,
          describe="NodeParser(EventsHandler) vs model on real documents and single-point faults"),
     Corr("bind.roundtrip", gen_roundtrip, impl_roundtrip, compare=cmp_roundtrip, classify=classify_rt,
@@ -239,8 +328,40 @@ def gen_valF1(rng, tier):
         u = B.Universe(desc)
         _UNIS[u.modname] = u
         yield {"ctx": u.export_ctx(), "value": value, "clazz": "Root", "desc": desc, "_uni": u.modname}
+    n = 0
     for a in gen_oracle(rng, tier):
         yield {k: a[k] for k in ("ctx", "value", "clazz", "desc", "_uni")}
+        n += 1
+        if n % 3 == 0:
+            # the excluded regions: empty strings, `None` in lists / under required fields, Clark names of datatypes
+            yield {"ctx": a["ctx"], "value": spoil_F1(rng, a["value"]), "clazz": "Root", "desc": a["desc"], "_uni": a["_uni"]}
+
+
+def spoil_F1(rng, value):
+    import copy
+
+    v = copy.deepcopy(value)
+
+    def walk(x):
+        if isinstance(x, dict) and "obj" in x:
+            for kv in x["fields"]:
+                if isinstance(kv[1], dict) and "str" in kv[1] and rng.random() < 0.4:
+                    kv[1]["str"] = rng.choice(["", "", XS_STRING, "{http://www.w3.org/2001/XMLSchema}int", " "])
+                elif kv[1] is not None and rng.random() < 0.1:
+                    kv[1] = None
+                else:
+                    walk(kv[1])
+        elif isinstance(x, dict) and "list" in x:
+            for n, y in enumerate(x["list"]):
+                if rng.random() < 0.15:
+                    x["list"][n] = None
+                elif isinstance(y, dict) and "str" in y and rng.random() < 0.3:
+                    y["str"] = ""
+                else:
+                    walk(y)
+
+    walk(v)
+    return v
 
 
 def impl_valF1(a):
@@ -303,10 +424,78 @@ def covered_wide(a, msg):
     return r[0] if r else None
 
 
+# ------------------------------------------------------------------ shared state: one context for many calls
+def gen_shared(rng, tier):
+    """several instances per universe, of the root class and of the classes nested in it (used once as
+    a root and once nested, under different parent namespaces), to be pushed through ONE XmlContext /
+    XmlSerializer / XmlParser in two orders"""
+    for _ in range(n_cases(tier, 40, 300)):
+        u, desc, ctx = new_universe(rng, W.WIDE_FEATURES)
+        names = [c["name"] for c in desc["classes"]]
+        items = []
+        for _ in range(rng.randint(3, 6)):
+            cname = "Root" if rng.random() < 0.5 else rng.choice(names)
+            try:
+                obj = G.gen_instance(rng, u, cname)
+            except Exception:  # noqa: BLE001
+                continue
+            items.append([cname, u.to_val(obj)])
+        if len(items) >= 2:
+            yield {"desc": desc, "_uni": u.modname, "ctx": ctx, "items": items, "writer": rng.choice(["native", "lxml"]),
+                   "handler": rng.choice(["native", "lxml"]), "value": items[0][1], "clazz": items[0][0]}
+
+
+def oracle_shared(a):
+    """history independence of the pipeline: serializing and parsing through one shared context, in the
+    given order and in the reverse order, gives for every instance what fresh objects give"""
+    if "items" not in a:
+        return None
+    from xsdata.formats.dataclass.context import XmlContext
+    from xsdata.formats.dataclass.parsers import XmlParser
+    from xsdata.formats.dataclass.parsers.handlers import LxmlEventHandler, XmlEventHandler
+    from xsdata.formats.dataclass.serializers import XmlSerializer
+    from xsdata.formats.dataclass.serializers.writers import LxmlEventWriter, XmlEventWriter
+
+    u = uni_of(a)
+    w = XmlEventWriter if a["writer"] == "native" else LxmlEventWriter
+    h = XmlEventHandler if a["handler"] == "native" else LxmlEventHandler
+
+    def run(items, ser, par):
+        out = []
+        for cname, val in items:
+            s_ = ser() if callable(ser) else ser
+            p_ = par() if callable(par) else par
+            try:
+                xml = s_.render(u.from_val(val))
+            except Exception as e:  # noqa: BLE001
+                out.append(("ser:" + type(e).__name__, None))
+                continue
+            try:
+                back = u.to_val(p_.from_string(xml, u.classes[cname]))
+            except Exception as e:  # noqa: BLE001
+                back = "parse:" + type(e).__name__
+            out.append((xml, back))
+        return out
+
+    fresh = run(a["items"], lambda: XmlSerializer(context=XmlContext(models_package=u.modname), writer=w),
+                lambda: XmlParser(context=XmlContext(models_package=u.modname), handler=h))
+    for order in (list(range(len(a["items"]))), list(reversed(range(len(a["items"]))))):
+        ctx = XmlContext(models_package=u.modname)
+        shared = run([a["items"][i] for i in order], XmlSerializer(context=ctx, writer=w), XmlParser(context=ctx, handler=h))
+        for k, i in enumerate(order):
+            if shared[k] != fresh[i]:
+                what = "document" if shared[k][0] != fresh[i][0] else "parsed object"
+                return (f"shared context, order {order}: the {what} of item {i} ({a['items'][i][0]}) differs from the one "
+                        f"fresh objects give: {str(shared[k][0 if what == 'document' else 1])[:160]} vs "
+                        f"{str(fresh[i][0 if what == 'document' else 1])[:160]}")
+    return None
+
+
 ORACLES = [
     Oracle("roundtrip", gen_oracle, oracle_roundtrip, covered=covered_oracle,
            from_ops=("bind.roundtrip", "bind.generate"), adapt=adapt_oracle, adapt_disagreement=adapt_disagreement),
     Oracle("roundtrip-wide", gen_wide, oracle_roundtrip, covered=covered_wide),
+    Oracle("shared-context", gen_shared, oracle_shared),
 ]
 
 
